@@ -6,64 +6,64 @@ V = os.path.dirname(os.path.dirname(os.path.abspath(__file__)))
 
 C = {
  "C01": ("exploration", "§4 C01", "wire monitor + independent signature verification over hostile forwarded agents; strace getrandom provenance (thorough)",
-   "Seeded runs of the real regular handler and gensign.Run against a scripted forwarded agent (honest, keyless, wrong key, wrong data, replay, garbage, empty, failure, close) x registered-key directory states x policy/hard-key flags x handler orderings; the oracle verifies the proof of possession itself from the wire log and flags any signer call or add-identity frame without it. Challenge freshness is monitored across all runs, also while the process entropy source answers in short reads or fails and after the global math/rand generator was seeded; registered files that are certificates, directories or symlinks; security-key user keys; handler lists whose handlers answer late under a request deadline (generation only after the generating handler's own authentication succeeded); handler lists reused for several requests, every kind of rejection, requests whose forwarded agent is the one SSH_AUTH_SOCK names at the time; re-registered keys (same size, same time stamp); a bystander agent named by the process's own SSH_AUTH_SOCK that must never be asked; handlers sharing a name.",
+   "Seeded runs of the real regular handler and gensign.Run against a scripted forwarded agent (honest, keyless, wrong key, wrong data, replay, garbage, empty, failure, close) x registered-key directory states x policy/hard-key flags x handler orderings; the oracle verifies the proof of possession itself from the wire log and flags any signer call or add-identity frame without it. Challenge freshness is monitored across all runs, also while the process entropy source answers in short reads or fails and after the global math/rand generator was seeded; registered files that are certificates, directories or symlinks; security-key user keys; handler lists whose handlers answer late under a request deadline (generation only after the generating handler's own authentication succeeded); handler lists reused for several requests, every kind of rejection, requests whose forwarded agent is the one SSH_AUTH_SOCK names at the time; re-registered keys (same size, same time stamp); a bystander agent named by the process's own SSH_AUTH_SOCK that must never be asked; handlers sharing a name. Declared requesters that have a registered key of their own.",
    "Trusts x/crypto ssh signature verification and the harness's own scripted agent; unpredictability is observed only as length, distinctness, bit balance (and getrandom provenance under strace in the thorough tier)."),
  "C02": ("exploration", "§4 C02", "recording csr.Signer + independent JSON/KeyID oracle",
-   "Every CSR produced by the real handler for generated hostile login/user/host/IP/transaction ids, CA algorithms and handler configurations is compared field by field with an oracle built from the inputs; public keys are checked for freshness over the whole run; qualified login names; requests decoded from the wire message by the RA's own entry point, slot names with shell metacharacters; sibling handler sections, long-lived handler instances.",
+   "Every CSR produced by the real handler for generated hostile login/user/host/IP/transaction ids, CA algorithms and handler configurations is compared field by field with an oracle built from the inputs; public keys are checked for freshness over the whole run; qualified login names; requests decoded from the wire message by the RA's own entry point, slot names with shell metacharacters; sibling handler sections, long-lived handler instances. Declared client versions from 0.0 to 65535.65535.",
    "Trusts encoding/json as independent KeyID decoder; invalid UTF-8 inputs excluded."),
  "C03": ("exploration", "§4 C03", "keyring snapshot monitor over run histories",
-   "Histories of successful and failed runs against one real in-harness keyring; set comparison of identities before/after each run, recorded AddedKey constraints, live signatures through the agent protocol; handlers whose keys carry several requests, agents that do not cross-check certificate and key; a CA that takes seconds to answer; generations that lapsed before the next run, CA replies with plain keys anywhere, certificates granted less than asked or handed back as agent.Key; hand-overs refused half way beside another client of the agent.",
+   "Histories of successful and failed runs against one real in-harness keyring; set comparison of identities before/after each run, recorded AddedKey constraints, live signatures through the agent protocol; handlers whose keys carry several requests, agents that do not cross-check certificate and key; a CA that takes seconds to answer; generations that lapsed before the next run, CA replies with plain keys anywhere, certificates granted less than asked or handed back as agent.Key; hand-overs refused half way beside another client of the agent. The requester deleting the key a refused run left behind.",
    "Ephemeral is checked as the lifetime constraint sent to the agent."),
  "C04": ("fault_enumeration", "§4 C04", "single-fault enumeration at every agent frame and signer call",
    "A pilot run counts agent frames and signer calls; one run per (frame index, fault kind) and per (signer call, error|panic), plus panics in every Handler/AgentKey method (also after refusing handlers), a request context that ends at every stage, a CA that certifies another key, for every run shape up to the tier bound; the result kind must match the stage in which the fault landed and success requires complete delivery; a generation failure that is not one of the RA's typed errors; panics raised by the runtime, typed failures that do not name their handler, requests without optional members; challenges answered with signatures that are not the registered key's.",
    "Single faults only; exhaustive within the stated shape bound."),
  "C05": ("exploration", "§4 C05", "reference predicate + independent JSON decoder over the full attribute cube and field surgery",
-   "The complete cube of flag/touch/usage/version values is encoded and decoded, every single required-field deletion/rename/duplication/retyping of valid encodings is decoded, plus JSON scalars and byte-level fuzz; the codec's accept/reject decision and result are compared with a 15-line reference predicate; pairs of retyped members; accepted texts must have typed required members.",
+   "The complete cube of flag/touch/usage/version values is encoded and decoded, every single required-field deletion/rename/duplication/retyping of valid encodings is decoded, plus JSON scalars and byte-level fuzz; the codec's accept/reject decision and result are compared with a 15-line reference predicate; pairs of retyped members; accepted texts must have typed required members. Undecodable texts of every length 0..600 in nine shapes.",
    "Trusts encoding/json as witness of field presence; strings restricted to valid UTF-8."),
  "C06": ("exploration", "§4 C06", "forged encoded-message oracle (sig = EM^d mod N) against Attest",
-   "The harness owns root and device RSA keys, so it produces signatures that decrypt to any chosen encoded message: correct encodings for each hash and both DigestInfo forms must be accepted; every single-byte alteration, shifted/truncated padding, trailing garbage, other-hash DigestInfo, bit flips of signature and body, every algorithm label and every chain relation must be rejected; device keys with e=65537 and e=3 attested concurrently; attestors looked at again after device certificates lapsed / became valid; a host trust store holding a CA that is not configured; hundreds of padding octets altered at once; genuine MD5 signatures; a second attestor over an RSA root (slot certificates signed by the root's key are refused).",
+   "The harness owns root and device RSA keys, so it produces signatures that decrypt to any chosen encoded message: correct encodings for each hash and both DigestInfo forms must be accepted; every single-byte alteration, shifted/truncated padding, trailing garbage, other-hash DigestInfo, bit flips of signature and body, every algorithm label and every chain relation must be rejected; device keys with e=65537 and e=3 attested concurrently; attestors looked at again after device certificates lapsed / became valid; a host trust store holding a CA that is not configured; hundreds of padding octets altered at once; genuine MD5 signatures; a second attestor over an RSA root (slot certificates signed by the root's key are refused). A slot certificate presented as device certificate after its device was attested; DigestInfo with further elements.",
    "Real clock with ±24 h margins for chain validity; reference EM built from RFC 8017 and cross-checked with crypto/rsa."),
  "C07": ("exploration", "§4 C07", "sequential reference model + interval-clock oracle over shim histories",
    "Seeded histories of shim operations and direct keyring manipulation with certificates of every validity window, in both modes, compared after every observation with a three-valued reference model; lapsing certificates are observed across their expiry; tables for the orphan rule, for purges the underlying agent refuses and for listings slower than a certificate's remaining validity; a renewal table (older certificate over the key of a held one, under five configured orderings); several hardware certificates on one key losing it at once; key objects retained from Signers() across a lapse.",
    "Boundary second is don't-care; thorough tier runs under the race detector."),
  "C08": ("exploration", "§4 C08", "sequential reference model + keyring snapshots around lock/unlock",
-   "Histories interleaving lock/unlock (right/wrong passphrases, refused by the underlying agent) with every other operation; while locked every operation must fail/return empty and the keyring snapshot must not change; the shim's own listing is compared across every lock/unlock pair and a fixed state is put through every operation while locked (matrix); Close arriving while a round trip is pending on a locked shim; raw unlock frames with a wrong passphrase relayed while locked; late replies to relayed requests before lock/unlock; refusals compared across six kinds of target; relayed requests that fail while locked.",
+   "Histories interleaving lock/unlock (right/wrong passphrases, refused by the underlying agent) with every other operation; while locked every operation must fail/return empty and the keyring snapshot must not change; the shim's own listing is compared across every lock/unlock pair and a fixed state is put through every operation while locked (matrix); Close arriving while a round trip is pending on a locked shim; raw unlock frames with a wrong passphrase relayed while locked; late replies to relayed requests before lock/unlock; refusals compared across six kinds of target; relayed requests that fail while locked. Locked removals naming the public key objects of handed-out signers.",
    "Underlying agent is x/crypto's keyring behind the harness's frame-level scripted agent."),
  "C09": ("exploration", "§4 C09", "sequential reference model whose hidden set comes from a reference YSSHCA predicate, both modes",
    "The same seeded history generator runs with no-upstream mode on and off; every listing, signature and removal is compared with a sequential model whose hidden set is computed by the harness's own YSSHCA predicate over KeyIDs of every type and every near-miss (each flag conflict, missing field, wrong version, wrong-case field, free text); certificates that arrive in the underlying agent between the listings of one shim operation; security-key certificate types; KeyIDs carrying other usage values; key ids built and judged by the harness's own encoder and predicate; scripted histories run in both modes (mode independence).",
    "Reference KeyID predicate is the harness's own (C05)."),
  "C10": ("exploration", "§4 C10", "model-based histories + fault plans at every upstream request index + byte-exact relay check",
-   "Histories over plain keys, certificates and hardware certificates checked against the model and the real keyring; raw request relay compared byte for byte at the scripted agent (including add/remove-identity requests relayed raw); byte slices handed out earlier re-checked after every later operation; every fault kind at every upstream request index of pilot histories and during construction; every signer handed out is asked for the key's own algorithm name and the default; identities of algorithms unknown to the SSH library; every family under a bounded-progress watchdog; relayed requests answered late followed by an idle period.",
+   "Histories over plain keys, certificates and hardware certificates checked against the model and the real keyring; raw request relay compared byte for byte at the scripted agent (including add/remove-identity requests relayed raw); byte slices handed out earlier re-checked after every later operation; every fault kind at every upstream request index of pilot histories and during construction; every signer handed out is asked for the key's own algorithm name and the default; identities of algorithms unknown to the SSH library; every family under a bounded-progress watchdog; relayed requests answered late followed by an idle period. A fault pilot that lists and removes a hidden issued certificate.",
    "Child process so that fatal errors become verdicts."),
  "C11": ("exploration", "§4 C11", "Go race detector + porcupine linearizability + upstream-exclusion and reply-tag monitors",
    "Barrier-started rounds of 2..16 goroutines on one shim built from the real code with -race; race reports touching /repo frames, pipelined upstream requests, crossed replies, non-linearizable histories and stuck operations are violations; clients waiting for a message code run beside the operations; several shims side by side in one process, over-long raw requests, signers handed out by Signers() used beside other clients; add-hardware-certificate beside remove-all with a widened window, a seven-second exchange with early queuers, a parked waiter; a hardware certificate lapsing during a long exchange; listing after an acknowledged add beside a slow listing.",
    "Sampled schedules only; evidence lists operation pairs seen overlapping."),
  "C12": ("exploration", "§4 C12", "stream oracle over real ServeAgent with panic, allocation and completion monitors; fragmented and vanished-peer delivery",
-   "Exhaustive code x tiny-body table, truncated/oversized declarations and seeded frame concatenations are served by the real ServeAgent on unix-socket pairs; responses must match complete frames one to one, service may end only at a malformed frame, no panic, no allocation for oversized declarations; add-hardware-certificate frames with multi-megabyte comments; a peer that stalls inside a frame beyond the connection's idle time-out; pauses behind large frames; inner lengths near 2^32.",
+   "Exhaustive code x tiny-body table, truncated/oversized declarations and seeded frame concatenations are served by the real ServeAgent on unix-socket pairs; responses must match complete frames one to one, service may end only at a malformed frame, no panic, no allocation for oversized declarations; add-hardware-certificate frames with multi-megabyte comments; a peer that stalls inside a frame beyond the connection's idle time-out; pauses behind large frames; inner lengths near 2^32. Listings of 1 MiB after a long stream on the same connection.",
    "Well-formed grammar is the harness's conservative one."),
  "C13": ("exploration", "§4 C13", "recording YubiAgent served by real ServeAgent vs real client (sequential and concurrent use of one client); fake PIV tool on PATH",
    "Arguments recorded by a harness YubiAgent are compared with the client's arguments and the client's results with the scripted results for every operation; slot listing is compared with a reference parser over hostile tool outputs; transports with short reads; tool diagnostics on stderr; replies carrying certificate and error.",
    "Fake yubico-piv-tool; excludes values the wire format cannot carry (see DESIGN)."),
  "C14": ("exploration", "§4 C14", "transcribed oracle over generated env/argv inputs with panic monitor",
-   "csr.NewReqParam is called with generated original-command texts, LOGNAME, SSH_CONNECTION and argv; success results are compared with the oracle transcribed from the statement; transaction ids monitored for freshness; non-address peer words; objects followed by more text; math/rand seeded with repeating values.",
+   "csr.NewReqParam is called with generated original-command texts, LOGNAME, SSH_CONNECTION and argv; success results are compared with the oracle transcribed from the statement; transaction ids monitored for freshness; non-address peer words; objects followed by more text; math/rand seeded with repeating values. Long commands mixing one- to four-octet characters.",
    "40-bit id collisions bounded probabilistically (window rule in DESIGN)."),
  "C15": ("exploration", "§4 C15", "round-trip and differential (encoding/json) oracle over generated attribute sets and texts",
-   "Generated attribute sets are encoded and decoded in both formats and compared under the normalisation the format defines; JSON-compatible texts must never be given the legacy interpretation; white space other than U+0020 inside legacy values; extension values JSON cannot represent.",
+   "Generated attribute sets are encoded and decoded in both formats and compared under the normalisation the format defines; JSON-compatible texts must never be given the legacy interpretation; white space other than U+0020 inside legacy values; extension values JSON cannot represent. Legacy lines of up to 320 tokens and gaps of up to 100 blanks.",
    "ext values drawn from JSON-native types."),
  "C16": ("exploration", "§4 C16", "differential oracle against crypto/x509 + reference ModHex + panic monitor under mutation",
-   "Generated certificates (key types, signature algorithms, extension kinds) parsed by both parsers and compared field by field; NULL-stripped re-encodings; byte mutations; PEM bundles; serial-extension values of length 0..10 against a reference ModHex; re-encodings with issuer/subject unique identifiers; boundary serial numbers.",
+   "Generated certificates (key types, signature algorithms, extension kinds) parsed by both parsers and compared field by field; NULL-stripped re-encodings; byte mutations; PEM bundles; serial-extension values of length 0..10 against a reference ModHex; re-encodings with issuer/subject unique identifiers; boundary serial numbers. Authority key identifiers in their full form with wide serials; PEM leading text beginning with any character.",
    "crypto/x509 is the reference for well-formed certificates."),
  "C17": ("fault_enumeration", "§4 C17", "success/failure vector enumeration over real TLS gRPC CA servers + Backoff bound monitor",
-   "Every endpoint list of length 0..4 x every success/failure vector x failure kind against recording gRPC servers on loopback aliases; contacted endpoints must form a prefix ending at the first success, the request must arrive unmodified; Backoff sampled over attempts and configurations; retries > 1 with real backoff delays, duplicate endpoints, finished contexts, default retry settings, replies of any size or without certificates, a second signer from the same configuration value; negative per-try time-outs; bracketed IPv6 endpoints; requests using every member of the message; earlier results re-compared after later calls; replies without final newline, large retry settings, delays computed concurrently, once more in a race-instrumented helper (cmd/c17race) whose detector reports are read.",
+   "Every endpoint list of length 0..4 x every success/failure vector x failure kind against recording gRPC servers on loopback aliases; contacted endpoints must form a prefix ending at the first success, the request must arrive unmodified; Backoff sampled over attempts and configurations; retries > 1 with real backoff delays, duplicate endpoints, finished contexts, default retry settings, replies of any size or without certificates, a second signer from the same configuration value; negative per-try time-outs; bracketed IPv6 endpoints; requests using every member of the message; earlier results re-compared after later calls; replies without final newline, large retry settings, delays computed concurrently, once more in a race-instrumented helper (cmd/c17race) whose detector reports are read. Signing calls bounded by their context deadline (a call that never returns is a violation); slow endpoints inside the per-try time-out.",
    "Loopback TLS servers stand in for crypki; hang case bounded by PerTryTimeout."),
  "C18": ("exploration", "§4 C18", "handshake recording at harness TLS servers with genuine/impostor identities",
-   "Server identities (configured CA, foreign CA, self-signed, expired, not yet valid, wrong name, system-pool-only), protocol ranges and client-certificate policies at every position of endpoint lists; an RPC handled by a non-genuine server or below TLS 1.2 is a violation; bundles with non-certificate blocks, a client certificate chain from a CA of its own, a client certificate that lapses while the signer lives; dial options handed out and overwritten by the caller; RSA-key servers, a successor CA staged before it is valid, configurations built concurrently; client certificate files damaged after construction; a server certificate lapsing between two calls; stale extra certificates in the server's message.",
+   "Server identities (configured CA, foreign CA, self-signed, expired, not yet valid, wrong name, system-pool-only), protocol ranges and client-certificate policies at every position of endpoint lists; an RPC handled by a non-genuine server or below TLS 1.2 is a violation; bundles with non-certificate blocks, a client certificate chain from a CA of its own, a client certificate that lapses while the signer lives; dial options handed out and overwritten by the caller; RSA-key servers, a successor CA staged before it is valid, configurations built concurrently; client certificate files damaged after construction; a server certificate lapsing between two calls; stale extra certificates in the server's message. An endpoint that becomes genuine between two calls on one Signer; configuration maps of different lengths decoded one after the other.",
    "No DNS: names are IP SANs."),
  "C19": ("exploration", "§4 C19", "exhaustive rule-table and metamorphic oracle over the KeyID attribute space",
    "The complete attribute space (flags x touch policy incl. out-of-range x usage x critical option states) is enumerated; type, label and principals compared with the transcribed table and the metamorphic clauses; shim listing comments checked; a population of 320 000 (thorough 3 000 000) distinct KeyIDs typed in one process; option values that name no host.",
    "Finite space enumerated completely (exhaustive flag in evidence)."),
  "C20": ("exploration", "§4 C20", "goroutine-table waiter count + race detector over waiter/poke scenarios",
-   "Waiters on every code and poke orders on a real server; after each poke the set of parked waiters must be exactly those on other codes; waiters parked for the whole run (time alone releases nobody), registrations racing a request, refused Close on a locked agent; agents that have already received 2^8, 2^16, 2^17 requests with the awaited code; both shim modes; requests from connections that waited earlier; release observed while an unrelated request is still in flight; matching announcements followed at once by another code; housekeeping that is not a request; waiters that stopped reading beside healthy ones.",
+   "Waiters on every code and poke orders on a real server; after each poke the set of parked waiters must be exactly those on other codes; waiters parked for the whole run (time alone releases nobody), registrations racing a request, refused Close on a locked agent; agents that have already received 2^8, 2^16, 2^17 requests with the awaited code; both shim modes; requests from connections that waited earlier; release observed while an unrelated request is still in flight; matching announcements followed at once by another code; housekeeping that is not a request; waiters that stopped reading beside healthy ones. Several requests written in one piece; octets spelling requests inside a refused over-limit frame.",
    "Eventually = bounded progress with parked-count evidence."),
 }
 
